@@ -86,23 +86,93 @@ fn macros_value<const N: usize>(out: &mut Out) {
     if elog::log() == "CORRUPT" {
         out.emit(&format!("arr.map_ fn log {} none", N), "CORRUPT", "ok", true);
     }
+    // zero-sized outputs: `[z;…]`, with the number of live tokens appended if it is not the array length
+    let zs = |a: [elog::Z; N]| {
+        let live = elog::zlive();
+        let s = format!("[{}]", vec!["z"; a.len()].join(";"));
+        drop(a);
+        if live == N as i64 && elog::zlive() == 0 { s } else { format!("{}|LIVE={}", s, live) }
+    };
+    elog::reset();
+    let ora = catch(|| zs(input_copy::<N>().map(|_x| elog::znew())));
+    elog::reset();
+    let imp = catch(|| zs(konst::array::map!(input_copy::<N>(), |_x| elog::znew())));
+    out.emit(&format!("arr.map fn zst {} none", N), &imp, &ora, true);
+    elog::reset();
+    let imp = catch(|| zs(konst::array::map_!(input_copy::<N>(), |_x| elog::znew())));
+    out.emit(&format!("arr.map_ fn zst {} none", N), &imp, &ora, true);
+    elog::reset();
+    let ora = catch(|| zs(core::array::from_fn::<elog::Z, N, _>(|_i| elog::znew())));
+    elog::reset();
+    let imp = catch(|| {
+        let r: [elog::Z; N] = konst::array::from_fn!(|_i| elog::znew());
+        zs(r)
+    });
+    out.emit(&format!("arr.from_fn fn zst {} none", N), &imp, &ora, true);
+    elog::reset();
+    let imp = catch(|| {
+        let r: [elog::Z; N] = konst::array::from_fn_!(|_i| elog::znew());
+        zs(r)
+    });
+    out.emit(&format!("arr.from_fn_ fn zst {} none", N), &imp, &ora, true);
 }
 
 fn slice_ids(s: &[E]) -> String {
     elog::ids(&s.iter().map(elog::peek).collect::<Vec<_>>())
 }
 
-/// one builder history on the real `ArrayBuilder<E, N>`
-pub fn bld_hist<const N: usize>(ops: &[u8]) -> String {
+/// element kinds of the builder histories: the drop-logging `E` (identity = creation number) and the
+/// zero-sized token `Z` (no identity: every observation is a COUNT)
+pub trait Tok: Clone {
+    fn mk() -> Self;
+    fn slice(s: &[Self]) -> String;
+    /// the caller receives the elements of a built array
+    fn built(v: Vec<Self>) -> String;
+    fn ledger() -> String;
+}
+impl Tok for E {
+    fn mk() -> E {
+        elog::new()
+    }
+    fn slice(s: &[E]) -> String {
+        slice_ids(s)
+    }
+    fn built(v: Vec<E>) -> String {
+        let ids: Vec<u32> = v.into_iter().map(elog::take).collect();
+        elog::ids(&ids)
+    }
+    fn ledger() -> String {
+        format!("L={}", elog::log())
+    }
+}
+impl Tok for elog::Z {
+    fn mk() -> elog::Z {
+        elog::znew()
+    }
+    fn slice(s: &[elog::Z]) -> String {
+        s.len().to_string()
+    }
+    fn built(v: Vec<elog::Z>) -> String {
+        let n = v.len();
+        v.into_iter().for_each(elog::ztake);
+        format!("arr:{}", n)
+    }
+    fn ledger() -> String {
+        elog::zcounts()
+    }
+}
+
+/// one builder history on the real `ArrayBuilder<T, N>`
+pub fn bld_hist<T: Tok, const N: usize>(ops: &[u8]) -> String {
     elog::reset();
-    let mut cur: Option<ArrayBuilder<E, N>> = Some(ArrayBuilder::new());
+    let mut cur: Option<ArrayBuilder<T, N>> = Some(ArrayBuilder::new());
     let mut steps: Vec<String> = Vec::new();
     let mut fin = String::new();
     for &op in ops {
         let mut ok = true;
         match op {
             b'p' => {
-                let e = elog::new();
+                let e = T::mk();
                 let b = cur.as_mut().unwrap();
                 ok = catch_unwind(AssertUnwindSafe(|| b.push(e))).is_ok();
             }
@@ -116,13 +186,19 @@ pub fn bld_hist<const N: usize>(ops: &[u8]) -> String {
                 let cl = cur.as_ref().unwrap().clone();
                 drop(cl);
             }
+            b'0'..=b'9' => {
+                // the element's `Clone` panics on its j-th call inside `ArrayBuilder::clone`
+                elog::arm_clone_panic((op - b'0') as u32);
+                let b = cur.as_ref().unwrap();
+                let r = catch_unwind(AssertUnwindSafe(|| b.clone()));
+                elog::disarm_clone_panic();
+                ok = r.is_ok();
+                drop(r);
+            }
             b'b' => {
                 let b = cur.take().unwrap();
                 fin = match catch_unwind(AssertUnwindSafe(move || b.build())) {
-                    Ok(arr) => {
-                        let ids: Vec<u32> = arr.into_iter().map(elog::take).collect();
-                        format!("b={}", elog::ids(&ids))
-                    }
+                    Ok(arr) => format!("b={}", T::built(arr.into_iter().collect())),
                     Err(_) => "b=panic".to_string(),
                 };
                 break;
@@ -135,26 +211,26 @@ pub fn bld_hist<const N: usize>(ops: &[u8]) -> String {
             _ => return "bad-op".to_string(),
         }
         let b = cur.as_mut().unwrap();
-        let sl = slice_ids(b.as_slice());
-        let slm = slice_ids(b.as_mut_slice());
+        let sl = T::slice(b.as_slice());
+        let slm = T::slice(b.as_mut_slice());
         let sl = if sl == slm { sl } else { "MUTDIFF".to_string() };
         steps.push(format!("{}={},{},{},{}", op as char, if ok { "ok" } else { "panic" }, b.len(), crate::util::b(b.is_full()), sl));
     }
     drop(cur);
-    format!("{}|{}|L={}", if steps.is_empty() { "-".to_string() } else { steps.join(";") }, fin, elog::log())
+    format!("{}|{}|{}", if steps.is_empty() { "-".to_string() } else { steps.join(";") }, fin, T::ledger())
 }
 
-/// the same history on a `Vec<E>` with a capacity check (the reference)
-pub fn bld_hist_ref(n: usize, ops: &[u8]) -> String {
+/// the same history on a `Vec<T>` with a capacity check (the reference)
+pub fn bld_hist_ref<T: Tok>(n: usize, ops: &[u8]) -> String {
     elog::reset();
-    let mut cur: Vec<E> = Vec::new();
+    let mut cur: Vec<T> = Vec::new();
     let mut steps: Vec<String> = Vec::new();
     let mut fin = String::new();
     for &op in ops {
         let mut ok = true;
         match op {
             b'p' => {
-                let e = elog::new();
+                let e = T::mk();
                 if cur.len() < n {
                     cur.push(e);
                 } else {
@@ -169,10 +245,16 @@ pub fn bld_hist_ref(n: usize, ops: &[u8]) -> String {
             b'k' => {
                 drop(cur.clone());
             }
+            b'0'..=b'9' => {
+                elog::arm_clone_panic((op - b'0') as u32);
+                let r = catch_unwind(AssertUnwindSafe(|| cur.clone()));
+                elog::disarm_clone_panic();
+                ok = r.is_ok();
+                drop(r);
+            }
             b'b' => {
                 fin = if cur.len() == n {
-                    let ids: Vec<u32> = std::mem::take(&mut cur).into_iter().map(elog::take).collect();
-                    format!("b={}", elog::ids(&ids))
+                    format!("b={}", T::built(std::mem::take(&mut cur)))
                 } else {
                     cur.clear();
                     "b=panic".to_string()
@@ -186,10 +268,10 @@ pub fn bld_hist_ref(n: usize, ops: &[u8]) -> String {
             }
             _ => return "bad-op".to_string(),
         }
-        steps.push(format!("{}={},{},{},{}", op as char, if ok { "ok" } else { "panic" }, cur.len(), crate::util::b(cur.len() == n), slice_ids(&cur)));
+        steps.push(format!("{}={},{},{},{}", op as char, if ok { "ok" } else { "panic" }, cur.len(), crate::util::b(cur.len() == n), T::slice(&cur)));
     }
     drop(cur);
-    format!("{}|{}|L={}", if steps.is_empty() { "-".to_string() } else { steps.join(";") }, fin, elog::log())
+    format!("{}|{}|{}", if steps.is_empty() { "-".to_string() } else { steps.join(";") }, fin, T::ledger())
 }
 
 /// all words over `alpha` with at most `max` letters, each followed by every terminal
@@ -220,22 +302,64 @@ pub fn histories(alpha: &[u8], terms: &[u8], max: usize) -> Vec<Vec<u8>> {
     out
 }
 
+fn bld_row<T: Tok>(n: usize, h: &[u8], zst: bool, out: &mut Out) {
+    fn imp<T: Tok, const N: usize>(h: &[u8]) -> String {
+        bld_hist::<T, N>(h)
+    }
+    let imp = match n {
+        0 => imp::<T, 0>(h),
+        1 => imp::<T, 1>(h),
+        2 => imp::<T, 2>(h),
+        3 => imp::<T, 3>(h),
+        4 => imp::<T, 4>(h),
+        6 => imp::<T, 6>(h),
+        _ => unreachable!(),
+    };
+    let ora = bld_hist_ref::<T>(n, h);
+    out.emit(&format!("bld.hist {} {}{}", n, String::from_utf8_lossy(h), if zst { " zst" } else { "" }), &imp, &ora, true);
+}
+
 pub fn run_builder(tier: &str, out: &mut Out) {
     let depth = if tier == "thorough" { 8 } else if tier == "small" { 4 } else { 6 };
     for n in 0..=4usize {
         for h in histories(b"pck", b"bd", depth - 1) {
-            let imp = with_n!(n, bld_hist, &h);
-            let ora = bld_hist_ref(n, &h);
-            out.emit(&format!("bld.hist {} {}", n, String::from_utf8_lossy(&h)), &imp, &ora, true);
+            bld_row::<E>(n, &h, false, out);
         }
     }
     // long fill / overfill runs on a larger capacity
     for extra in 0..3usize {
         let mut h = vec![b'p'; 6 + extra];
         h.push(b'b');
-        let imp = bld_hist::<6>(&h);
-        let ora = bld_hist_ref(6, &h);
-        out.emit(&format!("bld.hist 6 {}", String::from_utf8_lossy(&h)), &imp, &ora, true);
+        bld_row::<E>(6, &h, false, out);
+    }
+    // ZERO-SIZED elements (`size_of::<T>() == 0`, `size_of::<[T; N]>() == 0`): every history again, observed
+    // as counts (created / dropped / moved tokens, lengths) — a fullness test phrased in bytes is vacuous here
+    let zdepth = if tier == "thorough" { 6 } else if tier == "small" { 3 } else { 4 };
+    for n in 0..=4usize {
+        for h in histories(b"pck", b"bd", zdepth) {
+            bld_row::<elog::Z>(n, &h, true, out);
+        }
+    }
+    for h in [&b"pb"[..], b"ppppppb", b"pppppb", b"pppcppb", b"d", b"pppkd"] {
+        bld_row::<elog::Z>(6, h, true, out);
+    }
+    // an element `Clone` that PANICS on its j-th call inside `ArrayBuilder::clone` (caught): the copies pushed
+    // into the half-built clone are dropped by unwinding, the original is intact
+    let pdepth = if tier == "thorough" { 5 } else if tier == "small" { 3 } else { 4 };
+    for n in 0..=4usize {
+        let mut alpha: Vec<u8> = b"pc".to_vec();
+        for j in 0..=n.min(3) {
+            alpha.push(b'0' + j as u8);
+        }
+        for h in histories(&alpha, b"bd", pdepth) {
+            if !h.iter().any(|c| c.is_ascii_digit()) {
+                continue;
+            }
+            bld_row::<E>(n, &h, false, out);
+            if h.len() <= 4 {
+                bld_row::<elog::Z>(n, &h, true, out);
+            }
+        }
     }
 }
 
